@@ -83,7 +83,7 @@ impl Block {
         &&& self.layout()
         &&& self.n() >= 1 && self.chain(self.n())
         &&& self.rp(0) == 0
-        &&& forall|r: int| 0 <= r < self.num_restarts - 1 ==> #[trigger] self.rp(r) < self.rp(r + 1)
+        &&& forall|r1: int, r2: int| 0 <= r1 < r2 < self.num_restarts ==> #[trigger] self.rp(r1) < #[trigger] self.rp(r2)
         &&& forall|r: int| 0 <= r < self.num_restarts ==> self.is_off(#[trigger] self.rp(r))
         &&& self.sorted_ok()
     }
@@ -119,11 +119,7 @@ proof fn lemma_idx_of(b: Block, j: int)
 proof fn lemma_rp_mono(b: Block, a: int, c: int)
     requires b.wf(), 0 <= a < c < b.num_restarts
     ensures b.rp(a) < b.rp(c)
-    decreases c - a
-{
-    if a < c - 1 { lemma_rp_mono(b, a, c - 1); }
-    assert(b.rp(c - 1) < b.rp(c - 1 + 1));
-}
+{ }
 // no entry starts strictly between two consecutive entries
 proof fn lemma_no_gap(b: Block, j: int, k: int)
     requires b.chain(b.n()), 0 <= j < b.n(), 0 <= k <= b.n(), b.off_at(j) < b.off_at(k)
@@ -175,6 +171,18 @@ proof fn lemma_step_same(b: Block, j0: int, ri: int)
 //@ extract sst/src/lib.rs | fn logic_error_next_not_positioned
 //@ external-body
 //@ end
+//@ extract sst/src/lib.rs | fn corruption_block_with_zero_restarts
+//@ external-body
+//@ end
+//@ extract sst/src/lib.rs | fn corruption_restart_point_no_key_value_pair
+//@ external-body
+//@ end
+//@ extract sst/src/lib.rs | fn corruption_binary_search_left_ne_right
+//@ external-body
+//@ end
+//@ extract sst/src/lib.rs | fn logic_error_tried_taking_negative_restart_idx
+//@ external-body
+//@ end
 
 // `value.map(|(offset, len)| &bytes[offset..offset + len])`
 fn value_slice(bytes: &Vec<u8>, value: Option<(usize, usize)>) -> (r: Option<&[u8]>)
@@ -222,6 +230,7 @@ impl CursorPosition {
 impl BlockCursor {
     spec fn b(&self) -> Block { self.block }
     // the position is the j-th entry of the block
+    #[verifier::opaque]
     spec fn at(&self, j: int) -> bool {
         let b = self.block;
         &&& self.position is Positioned && 0 <= j < b.n()
@@ -244,8 +253,25 @@ impl BlockCursor {
     }
     proof fn lemma_at(&self, j: int)
         requires self.block.wf(), self.at(j)
-        ensures self.idx() == j
-    { lemma_idx_of(self.block, j); }
+        ensures self.idx() == j, self.at_open(j)
+    { reveal(BlockCursor::at); lemma_idx_of(self.block, j); }
+    // after seek_restart(r) the position's key is the first key of interval r
+    proof fn lemma_probe(&self, r: int)
+        requires self.block.wf(), self.at(self.block.idx_of(self.block.rp(r)))
+        ensures self.position is Positioned, self.position->key@ == self.block.fk(r)
+    { reveal(BlockCursor::at); reveal(Block::fk); }
+    proof fn lemma_at_intro(&self, j: int)
+        requires self.at_open(j)
+        ensures self.at(j)
+    { reveal(BlockCursor::at); }
+    spec fn at_open(&self, j: int) -> bool {
+        let b = self.block;
+        &&& self.position is Positioned && 0 <= j < b.n()
+        &&& self.position->offset == b.off_at(j) && self.position->next_offset == b.off_at(j + 1)
+        &&& self.position->key@ == b.key_j(j) && self.position->timestamp == b.ev(j).ts && val_is(self.position->value, b.ev(j).val)
+        &&& self.position->restart_idx < b.num_restarts && b.rp(self.position->restart_idx as int) <= b.off_at(j)
+        &&& self.position->restart_idx + 1 < b.num_restarts ==> b.off_at(j) < b.rp(self.position->restart_idx + 1)
+    }
 
 //@ extract sst/src/block.rs | impl BlockCursor :: fn offset
 //@ ret r
@@ -322,12 +348,73 @@ impl BlockCursor {
             assert(b.is_rp(b.off_at(j)));
             assert(b.key_j(j) == trunc(Seq::<u8>::empty(), b.ev(j).shared) + b.ev(j).frag);
             assert(b.off_at(j + 1) == b.ev(j).next);
-            if restart_idx + 1 < b.num_restarts { assert(b.rp(restart_idx as int) < b.rp(restart_idx as int + 1)); }
             axiom_entry(b.bytes@, b.off_at(j), b.bnd());
-            assert(self.at(j));
+            self.lemma_at_intro(j);
         }
 //@ >>
 //@ end
+}
+
+fn bytes_cmp3(a: &[u8], b: &[u8]) -> (r: Ordering)
+    ensures r == Ordering::Less <==> lex_lt(a@, b@), r == Ordering::Equal <==> a@ == b@, r == Ordering::Greater <==> lex_lt(b@, a@),
+{
+    proof { lemma_lex_order_total(); }
+    if bytes_lt(a, b) { Ordering::Less } else if bytes_eq(a, b) { Ordering::Equal } else { Ordering::Greater }
+}
+// `(x).div_ceil(2)`
+fn div_ceil2(x: usize) -> (r: usize)
+    ensures r as int == (x as int + 1) / 2
+{ x / 2 + x % 2 }
+
+impl Block {
+    // the first key of restart interval r
+    #[verifier::opaque]
+    spec fn fk(&self, r: int) -> Seq<u8> { self.key_j(self.idx_of(self.rp(r))) }
+}
+// keys do not decrease along the block
+proof fn lemma_keys_mono(b: Block, i: int, j: int)
+    requires b.wf(), 0 <= i <= j < b.n()
+    ensures lex_le(b.key_j(i), b.key_j(j))
+{
+    reveal(Block::sorted_ok);
+    lemma_ents_index(b, i); lemma_ents_index(b, j);
+    lemma_sorted_keys(b.ents(), i, j);
+}
+// restart intervals start at increasing entries, so first keys do not decrease
+proof fn lemma_fk_mono(b: Block, r1: int, r2: int)
+    requires b.wf(), 0 <= r1 <= r2 < b.num_restarts
+    ensures lex_le(b.fk(r1), b.fk(r2)), b.idx_of(b.rp(r1)) <= b.idx_of(b.rp(r2))
+{
+    reveal(Block::fk);
+    assert(b.is_off(b.rp(r1))); assert(b.is_off(b.rp(r2)));
+    let j1 = b.idx_of(b.rp(r1)); let j2 = b.idx_of(b.rp(r2));
+    if r1 < r2 { lemma_rp_mono(b, r1, r2); if j2 < j1 { lemma_off_mono(b, j2, j1); } }
+    lemma_keys_mono(b, j1, j2);
+}
+// once the first key of interval m is >= k, so is the first key of every later interval
+proof fn lemma_fk_above(b: Block, m: int, k: Seq<u8>)
+    requires b.wf(), 0 <= m < b.num_restarts, lex_le(k, b.fk(m))
+    ensures forall|r: int| m <= r < b.num_restarts ==> lex_le(k, #[trigger] b.fk(r))
+{
+    assert forall|r: int| m <= r < b.num_restarts implies lex_le(k, #[trigger] b.fk(r)) by {
+        lemma_fk_mono(b, m, r);
+        lemma_lex_trans(k, b.fk(m), b.fk(r));
+    }
+}
+
+// every entry before the first entry of interval r has a key not above that interval's first key
+proof fn lemma_before_interval(b: Block, r: int, k: Seq<u8>)
+    requires b.wf(), 0 < r < b.num_restarts, lex_lt(b.fk(r), k)
+    ensures forall|i: int| 0 <= i < b.idx_of(b.rp(r)) ==> lex_lt(#[trigger] b.key_j(i), k)
+{
+    reveal(Block::fk);
+    assert(b.is_off(b.rp(r)));
+    let jr = b.idx_of(b.rp(r));
+    assert forall|i: int| 0 <= i < jr implies lex_lt(#[trigger] b.key_j(i), k) by {
+        lemma_keys_mono(b, i, jr);
+        lemma_lex_trans(b.key_j(i), b.fk(r), k);
+        if b.key_j(i) == k { lemma_lex_antisym(b.fk(r), k); }
+    }
 }
 
 proof fn lemma_ents_index(b: Block, j: int)
@@ -362,8 +449,105 @@ impl Cursor for BlockCursor {
 //@ extract sst/src/block.rs | impl Cursor for BlockCursor :: fn seek_to_last
 //@ end
 //@ extract sst/src/block.rs | impl Cursor for BlockCursor :: fn seek
-//@ external-body
+//@ rewrite-re X9 `match key\.cmp\(kvp\.key\) \{` => `match bytes_cmp3(key, kvp.key) {`
+//@ rewrite-re? X9 `if key > x\.key \{` => `if bytes_lt(x.key, key) {`
+//@ rewrite-re? X9 `if key >= x\.key \{` => `if bytes_le(x.key, key) {`
+//@ rewrite-re X7 `\(right - left\)\.div_ceil\(2\)` => `div_ceil2(right - left)`
+//@ rewrite-re X15 `let kref = match self\.seek_restart\(left\)\? \{\s*Some\(x\) => x,` => `match self.seek_restart(left)? { Some(_) => (),`
+//@ rewrite-re X15 `let mut kref = Some\(kref\);` => `let mut kref = self.key_ref()?;`
+//@ bodystart <<
+        let ghost b = self.block;
+        let ghost k = key@;
+        let ghost ee = self.block.ents();
+//@ >>
+//@ loop 0 <<
+            invariant
+                self.block == b, b.wf(), self.cache_ok(), self.pos_safe(), k == key@,
+                left <= right < b.num_restarts,
+                left == 0 || lex_lt(b.fk(left as int), k),
+                forall|r: int| right < r < b.num_restarts ==> lex_le(k, #[trigger] b.fk(r)),
+            decreases right - left,
+//@ >>
+//@ before `match bytes_cmp3(key, kvp.key) {` <<
+            let ghost kk = kvp.key@;
+//@ >>
+//@ after#1 `right = mid - 1;` <<
+                    proof {
+                        assert(lex_lt(k, kk));
+                        self.lemma_probe(mid as int);
+                        assert(kk == b.fk(mid as int));
+                        assert(lex_le(k, b.fk(mid as int)));
+                        lemma_fk_above(b, mid as int, k);
+                    }
+//@ >>
+//@ after#2 `right = mid - 1;` <<
+                    proof {
+                        assert(k == kk);
+                        self.lemma_probe(mid as int);
+                        assert(kk == b.fk(mid as int));
+                        lemma_lex_refl(k);
+                        assert(lex_le(k, b.fk(mid as int)));
+                        lemma_fk_above(b, mid as int, k);
+                    }
+//@ >>
+//@ after `left = mid;` <<
+                    proof {
+                        assert(lex_lt(kk, k));
+                        self.lemma_probe(mid as int);
+                        assert(kk == b.fk(mid as int));
+                        assert(lex_lt(b.fk(mid as int), k));
+                    }
+//@ >>
+//@ before `let mut kref = self.key_ref()?;` <<
+        proof {
+            let jl = b.idx_of(b.rp(left as int));
+            self.lemma_at(jl);
+            self.lemma_cursor_laws();
+            if left > 0 { lemma_before_interval(b, left as int, k); } else { assert(b.off_at(0) == 0); lemma_idx_of(b, 0); }
+            assert forall|i: int| 0 <= i < jl implies lex_lt(#[trigger] ee[i].key, k) by { lemma_ents_index(b, i); }
+        }
+//@ >>
+//@ loop 1 <<
+            invariant
+                self.wf(), self.ents() == ee, 0 <= self.pos() <= ee.len(), k == key@,
+                kref is None ==> self.pos() == ee.len(),
+                kref is Some ==> self.pos() < ee.len() && kref->Some_0.key@ == ee[self.pos()].key,
+                forall|i: int| 0 <= i < self.pos() ==> lex_lt(#[trigger] ee[i].key, k),
+            ensures
+                self.pos() < ee.len() ==> lex_le(k, ee[self.pos()].key),
+            decreases ee.len() - self.pos(),
+//@ >>
+//@ before? `break;` <<
+                proof {
+                    assert(x.key@ == ee[self.pos()].key);
+                    assert(!lex_lt(x.key@, k));
+                    lemma_lex_order_total();
+                    assert(lex_le(k, ee[self.pos()].key));
+                }
+//@ >>
+//@ before `self.next()?;` <<
+                let ghost p0 = self.pos();
+                proof { assert(x.key@ == ee[p0].key); assert(lex_lt(ee[p0].key, k)); }
+//@ >>
+//@ after#2 `kref = self.key_ref()?;` <<
+                proof {
+                    assert(self.pos() == p0 + 1);
+                    self.lemma_cursor_laws();
+                    assert(self.key_spec() == key_at(ee, self.pos()));
+                }
+//@ >>
+//@ before `Ok(())` <<
+        proof {
+            self.lemma_cursor_laws();
+            let p = self.pos();
+            assert forall|i: int| p <= i < ee.len() implies lex_le(k, #[trigger] ee[i].key) by {
+                lemma_sorted_keys(ee, p, i);
+                lemma_lex_trans(k, ee[p].key, ee[i].key);
+            }
+        }
+//@ >>
 //@ end
+
 //@ extract sst/src/block.rs | impl Cursor for BlockCursor :: fn prev
 //@ external-body
 //@ end
@@ -400,7 +584,7 @@ impl Cursor for BlockCursor {
             lemma_step_same(b, j0, ri0);
             lemma_off_mono(b, j0, j0 + 1);
             axiom_entry(b.bytes@, b.off_at(j0 + 1), b.bnd());
-            assert(self.at(j0 + 1));
+            self.lemma_at_intro(j0 + 1);
             self.lemma_at(j0 + 1);
         }
 //@ >>
